@@ -56,12 +56,12 @@ def workload(ctx):
                           "twoth": math.radians(float(rng.uniform(0.5, 150))), "dir": [float(x) for x in rng.normal(size=3)],
                           "scale": float(10 ** rng.uniform(-2, 2)), "rod": [float(x) for x in rng.normal(size=3) * 10 ** rng.uniform(-3, 1)],
                           "lam": float(rng.uniform(0.05, 0.4)), "yx": [float(x) for x in rng.normal(size=2) * 10 ** rng.uniform(-10, 1, 2)]}
-    sets = hkl.settings()
-    for i in range(ctx.n(60, 3000)):
-        no, cc = sets[int(rng.integers(len(sets)))] if i >= 237 or ctx.tier == "quick" else sets[i % len(sets)]
-        if ctx.tier == "quick":
-            no, cc = sets[(i * 4 + ctx.seed) % len(sets)]
-        yield "hkl", {"no": no, "cc": cc, "s": int(rng.integers(0, 2 ** 31)), "target": int(rng.integers(20, 150))}
+    from vfw.props import c05
+    for n_, (kind, q) in enumerate(c05.gen_cases(ctx, "hkl")):
+        # every (Laue class, setting) class at least 12 times per run, all 237 settings; quick keeps every 2nd case
+        if ctx.tier == "quick" and n_ % 2:
+            continue
+        yield "hkl", {"no": q["no"], "cc": q["cc"], "s": q["s"], "target": int(20 + q["s"] % 130)}
     for i in range(ctx.n(40, 1500)):
         sc = [int(x) for x in rng.choice([0, 0, 0, 2, 3, 4, 6], 26)]
         yield "sysabs", {"syscond": sc, "hkls": [gen.hkl(rng, 6) for _ in range(8)] + [[0, 0, int(rng.integers(1, 7))], [2, 2, 0], [1, -1, 3], [0, 3, 0]]}
@@ -129,6 +129,15 @@ def case_numeric(ctx, p):
     P("form_b_mat", (c,), factor=K)
     P("sintl", (c, h))
     P("tth", (c, h, p["lam"]))
+    # a refinement loop: each module is handed the same container object again after it was updated in place
+    held_t, held_l = list(c), list(c)
+    P("sintl", (held_t, h), (held_l, h))
+    for held in (held_t, held_l):
+        held[0] *= 1.0371
+        held[1] *= 0.9644
+    P("sintl", (held_t, h), (held_l, h))
+    P("tth", (held_t, h, p["lam"]), (held_l, h, p["lam"]))
+    P("form_b_mat", (held_t,), (held_l,), factor=K)
     B_l = oracle.upper_triangular_factor(oracle.recip_metric(c))
     B_t = K * B_l
     g_l = U @ (B_l @ np.array(h, float))
@@ -184,7 +193,9 @@ def case_hkl(ctx, p):
     rng = np.random.default_rng(p["s"])
     o = ctx.sgmod.sg(sgno=p["no"], cell_choice=p["cc"])
     cell = hkl.cell_for(rng, o.crystal_system, o.cell_choice, "generic" if p["s"] % 2 else "orth")
-    shell = hkl.choose_shell(rng, cell, p["target"], bool(p["s"] % 3 == 0))
+    from vfw import sgexact as sx
+    target = int(min(2500, p["target"] * max(1, sx.LAUE_ORDER.get(o.Laue, 2) // 2)))   # the walk covers one asymmetric unit
+    shell = hkl.choose_shell(rng, cell, target, bool(p["s"] % 3 == 0))
     if shell is None:
         return
     smin, smax = shell
